@@ -118,18 +118,25 @@ def jws_case(mon: Mon, rng):
         hdr["kid"] = ""
     skey = ks if given == "direct" else (lambda obj: ks)
     payload = b"c14 payload"
+    # the RFC 7797 entry points resolve keys the same way (unencoded payload, b64:false in the protected header)
+    b64f = form in ("compact", "flat") and rng.random() < 0.25
+    S = j.rfc7797 if b64f else j.jws
+    prot_extra = {"b64": False, "crit": ["b64"]} if b64f else {}
+    if b64f:
+        payload = b"c14-payload"
+        hdr.update(prot_extra)
     if form == "compact":
-        call_sign = lambda: j.jws.serialize_compact(copy.deepcopy(hdr), payload, skey, algorithms=[a])
+        call_sign = lambda: S.serialize_compact(copy.deepcopy(hdr), payload, skey, algorithms=[a])
     else:
-        member = {"protected": copy.deepcopy(hdr)} if pos == "protected" else {"protected": {"alg": a}, "header": {k: v for k, v in hdr.items() if k != "alg"}}
+        member = {"protected": copy.deepcopy(hdr)} if pos == "protected" else {"protected": {"alg": a, **prot_extra}, "header": {k: v for k, v in hdr.items() if k not in ("alg", "b64", "crit")}}
         if pos == "unprotected" and "kid" not in hdr:
-            member = {"protected": {"alg": a}}
+            member = {"protected": {"alg": a, **prot_extra}}
         m = member if form == "flat" else [member]
-        call_sign = lambda: j.jws.serialize_json(copy.deepcopy(m), payload, skey, algorithms=[a])
+        call_sign = lambda: S.serialize_json(copy.deepcopy(m), payload, skey, algorithms=[a])
     with mon.tr.record() as ev:
         o = call(call_sign)
-    ctx.cell("jws-produce", form, kid_mode, pos)
-    case = {"op": "sign", "alg": alg, "form": form, "kid_mode": kid_mode, "pos": pos, "jwks": jwks, "header": hdr}
+    ctx.cell("jws-produce", form + ("+b64false" if b64f else ""), kid_mode, pos)
+    case = {"op": "sign", "alg": alg, "form": form, "kid_mode": kid_mode, "pos": pos, "jwks": jwks, "header": hdr, "rfc7797": b64f}
     ctx.nontrivial(("sign", alg, form, kid_mode, pos, [kid_of(x) for x in jwks], str(o.value)[:200] if o.ok else o.etype))
     ctx.count("produce_ops")
     if kid_mode == "unknown":
@@ -188,7 +195,7 @@ def jws_case(mon: Mon, rng):
     # consumable through the public set, directly and by callable
     for vk in (pubset, lambda obj: pubset):
         with mon.tr.record() as ev2:
-            v = call(j.jws.deserialize_compact, token, vk, algorithms=[a]) if isinstance(token, str) else call(j.jws.deserialize_json, copy.deepcopy(token), vk, algorithms=[a])
+            v = call(S.deserialize_compact, token, vk, algorithms=[a]) if isinstance(token, str) else call(S.deserialize_json, copy.deepcopy(token), vk, algorithms=[a])
         ctx.count("consume_ops")
         if not v.ok:
             ctx.violation(f"public-set-rejects:{v.key}", f"token produced through the set is not verifiable through the public set: {v.exc!r}", case)
@@ -197,7 +204,8 @@ def jws_case(mon: Mon, rng):
             ctx.count("trace_key_identity_checked", len(used))
             if used and used[0].kid != kid_of(jwks[target]):
                 ctx.violation("trace:verified-with-other-key", f"verify() got the key with kid {used[0].kid!r}, the token names {kid_of(jwks[target])!r}", case)
-    consume_variants(mon, ctx, rng, token, jwks, pubset, target, a, case)
+    if not b64f:
+        consume_variants(mon, ctx, rng, token, jwks, pubset, target, a, case)
     if len(ctx.samples) < 2:
         ctx.sample({"alg": alg, "form": form, "kid_mode": kid_mode, "set_kids": [kid_of(x) for x in jwks], "token": token})
 
@@ -303,6 +311,8 @@ def jwe_case(mon: Mon, rng):
     if sk0:
         sjw = [{**sk0, "kid": "sender-a"}, {**g.curve_key(curve), "kid": "sender-b"}, {**gen.new_oct(256), "kid": "sender-oct"}]
         rng.shuffle(sjw)
+        if rng.random() < 0.35:
+            sjw = [{**sk0, "kid": "sender-a"}]      # a sender set that holds one key only
         sender_set = sjw
     pubs = [j.key(gen.public_jwk(x) if x["kty"] != "oct" else x, parameters={"kid": kid_of(x)}) for x in jwks]
     privs = [j.key(x, parameters={"kid": kid_of(x)}) for x in jwks]
